@@ -652,4 +652,65 @@ theorem cov_untilMarker (f : Nat) (tv : IVal) (tdop item : Dop) (ihd : ∀ d, Co
             · exact .inr (h.lift (hp2.trans hp1) (hm2.trans hm1) fun dr bl hr =>
                 .markTail f tv tdop item ls.st ls1.st ls2.st dr x bl hne hprobe hx2 (by omega) hr)
 
+/-! ### all sites -/
+
+/-- **The ghost log against `Reads`, strict mode, all sites.**  Every entry a strict run of a decoding function adds to the log is
+    tagged `probe`, or is an object of W19's `Reads` for that site from the start state with exactly these bytes, or lies inside
+    the message (MIN-MAX body); inside a probe every entry is tagged. -/
+theorem cov_decode_all (fuel : Nat) :
+    (∀ d, Cov fuel (.dop d) (decodeDopL fuel d)) ∧
+    (∀ item sz n, Cov fuel (.staticItems item sz n) (decodeStaticItemsL item sz fuel n)) ∧
+    (∀ item n, Cov fuel (.nItems item n) (decodeNItemsL item fuel n)) ∧
+    (∀ item, Cov fuel (.toEnd item) (decodeToEndL item fuel)) ∧
+    (∀ tv td item, Cov fuel (.untilMarker tv td item) (decodeUntilMarkerL tv td item fuel)) ∧
+    (∀ p, Cov fuel (.param p) (decodeParamL fuel p)) ∧
+    (∀ ps, Cov fuel (.params ps) (decodeParamsL fuel ps)) ∧
+    (∀ ps, Cov fuel (.composite ps) (decodeCompositeL fuel ps)) := by
+  induction fuel with
+  | zero =>
+    refine ⟨?_, ?_, ?_, ?_, ?_, ?_, ?_, ?_⟩ <;> intros <;> intro ls e he
+    · unfold decodeDopL at he; exact .inl he
+    · unfold decodeStaticItemsL at he; exact .inl he
+    · unfold decodeNItemsL at he; exact .inl he
+    · unfold decodeToEndL at he; exact .inl he
+    · unfold decodeUntilMarkerL at he; exact .inl he
+    · unfold decodeParamL at he; exact .inl he
+    · unfold decodeParamsL at he; exact .inl he
+    · unfold decodeCompositeL at he; exact .inl he
+  | succ f ih =>
+    obtain ⟨ihDop, ihStatic, ihN, ihEnd, ihMark, ihParam, ihParams, ihComp⟩ := ih
+    refine ⟨?_, ?_, ?_, ?_, ?_, ?_, ?_, ?_⟩
+    · intro d
+      cases d with
+      | simple dct phys cm => exact cov_dop_simple f dct phys cm
+      | struct bs ps => exact cov_dop_struct f bs ps (ihComp ps)
+      | staticField count size item => exact cov_dop_staticField f count size item (ihStatic item size count)
+      | dynLenField off cbp cbit cdop item => exact cov_dop_dynLenField f off cbp cbit cdop item (ihDop cdop) (ihN item)
+      | endMarkerField tv tdop item => exact cov_dop_endMarkerField f tv tdop item (ihMark tv tdop item)
+      | eopField mn mx item => exact cov_dop_eopField f mn mx item (ihEnd item)
+      | mux bp sbp sbit sd cs dflt => exact cov_dop_mux f bp sbp sbit sd cs dflt ihParam
+      | unsupported => intro ls e he; unfold decodeDopL at he; exact .inl he
+      | dtc dct phys cm dtcs => exact cov_dop_dtc f dct phys cm dtcs
+    · intro item sz n
+      cases n with
+      | zero => exact cov_static_zero (f + 1) item sz
+      | succ n => exact cov_static_succ f item sz n (ihDop item) (ihStatic item sz n)
+    · intro item n
+      cases n with
+      | zero => exact cov_n_zero (f + 1) item
+      | succ n => exact cov_n_succ f item n (ihDop item) (ihN item n)
+    · intro item
+      exact cov_toEnd f item (ihDop item) (ihEnd item)
+    · intro tv td item
+      exact cov_untilMarker f tv td item ihDop (ihMark tv td item)
+    · intro p
+      obtain ⟨name, bp, bit, kind⟩ := p
+      exact cov_param f name bp bit kind ihDop
+    · intro ps
+      cases ps with
+      | nil => exact cov_params_nil (f + 1)
+      | cons p rest => exact cov_params_cons f p rest (ihParam p) (ihParams rest)
+    · intro ps
+      exact cov_composite f ps (ihParams ps)
+
 end OdxVerif.Codec
